@@ -7,91 +7,314 @@ from ..core import cforest, copt
 ID = "C08"
 THEOREM_FILE = "Properties/C08.v"
 META = {
-    "text": "Proof: a stable-sort library (permutation, sortedness, stability, idempotence, uniqueness, commutation with "
-            "filter) instantiated on PatchTree.sort and order_config, and rank theorems for get_order (see "
-            "coq/Properties/C08.v). Correspondence: the model's make_patch order and order_config equal the "
-            "implementation's; Coq checks on the real outputs that the returned patch is the stable sort of the "
-            "unsorted patch by its sort keys at every level, multiset of paths preserved, rank = rule index for "
-            "unambiguous matches, order_config permutes/idempotent/keeps unmentioned rows, and that removing an "
-            "unrelated top-level row keeps the relative order of the remaining commands.",
-    "technique": "Coq proofs about stable insertion sort and get_order; vm_compute checks on real make_patch/order_config outputs",
+    "text": (
+        "PROVED for all inputs (Coq, closed under the global context; stated for an arbitrary row matcher, so "
+        "independent of the pattern language): "
+        "(sort) the tuple comparisons of both sort keys are total preorders; the model's insertion sort permutes, sorts, is "
+        "stable, idempotent, commutes with filter, preserves sublists, and is the unique sorted stable permutation, so "
+        "modelling list.sort/sorted by it assumes only that they are stable [C08_keys_total_preorder, "
+        "C08_stable_sort_unique, Proofs/SortProofs.v]. "
+        "(patch) make_patch = recursive stable sort of the patch built without PatchTree.sort (make_patch_u): at every "
+        "level a permutation of the unsorted items with children sorted in place under their own parent, multiset of "
+        "root-to-command paths unchanged, both fail together, every level sorted, keys are get_order's "
+        "[C08_patch_perm, C08_patch_error_iff, C08_patch_sorted, C08_patch_clauses, C08_patch_keys]; no command of "
+        "smaller rank stands behind one of larger rank [C08_no_inversion]; deleting items from a level deletes exactly "
+        "them from the sorted level [C08_unrelated_items_irrelevant]. "
+        "(rank) sibling rules with pairwise disjoint languages (hypothesis over the abstract matcher): get_order "
+        "returns the index of the one rule mentioning the row, direction kept, an %order_reverse rule pins a removal it "
+        "matches directly at +index and ignores everything else; no rule => 0; exit word => +inf; signed keys: earlier "
+        "rule first, removals mirrored and (from the second rule on) before every command, exit last; removal <= "
+        "re-creation for one rule; children get the level's %global rules and the matching rule's children "
+        "[C08_rank, C08_rank_unmentioned, C08_rank_exit, C08_key_order, C08_undo_before_redo, "
+        "C08_children_rules_handed_down]; the reference functions of P_C08 (ref_rank, ref_children) agree with get_order "
+        "wherever they are defined and the rank clause of P_C08 holds at every depth of every model patch, children "
+        "being ranked under the rules handed down [C08_ref_rank, C08_ref_children, C08_rank_ok]; sort_rec (the "
+        "specification of PatchTree.sort) sorts every level stably [C08_resort_clause]. "
+        "(order_config) multiset of paths preserved at every depth, every level sorted, idempotent at every depth, "
+        "commutes with any filter on row text, and at every depth the rows whose key the reference determines stand in "
+        "reference order (earlier rule first, negated rows mirrored and first, exit word last, children under the rules "
+        "handed down) [C08_order_config_perm(_level), C08_order_config_sorted, C08_order_config_idem, "
+        "C08_unrelated_rows_irrelevant, C08_order_config_rank, C08_cfg_clauses]. "
+        "REFUTED (1): 'rows no rule mentions keep their relative order' is false as stated -- an unmentioned row starting "
+        "with the negation word sorts before unmentioned commands [C08_unmentioned_stable_refuted, witness replayed on "
+        "the real Orderer.order_config, open finding in known/C08.json]; proved instead per kind of row "
+        "[C08_unmentioned_stable_partial] and in full when no unmentioned row is negated [C08_unmentioned_stable]. "
+        "REFUTED (2): 'the relative order of two commands does not depend on unrelated lines' is false across whole "
+        "configurations for commands whose keys tie: they keep the diff's order, and base_diff indexes removed rows by "
+        "their position in old and the others by their position in new [C08_unrelated_row_refuted, witness replayed "
+        "on the real _diff_and_patch, open finding]; the sort itself is proved innocent (sublist/filter theorems) and "
+        "the weaker clause meta_weak (smaller patch sorted, its paths contained in the full patch) is checked on real "
+        "outputs. "
+        "NOT proved, only tested: meta_weak for the model's pipeline (needs a theory of make_diff under row removal), "
+        "and the rank of rows matched by several overlapping rules (best-match by character weight: outside the "
+        "property's quantifier). "
+        "CORRESPONDENCE (testing): on generated patching+ordering rulebooks (depth<=3, %order_reverse, %global, %scope, "
+        "negated-form rules) and config pairs, Coq compares the model's sorted patch, unsorted patch and order_config "
+        "with the real make_patch (with and without PatchTree.sort) and Orderer.order_config (trees with negated "
+        "rows and the exit word), and evaluates P_C08 on the real outputs (sorted, stable sort of the unsorted patch, "
+        "path multiset, rank at every depth, the real PatchTree.sort applied to the fully unsorted tree, order_config "
+        "permutes / idempotent / reference rank order at every depth / unmentioned rows, metamorphic row removal)."),
+    "technique": "Coq proofs (induction over lists, patch trees, pre trees, config trees) about stable insertion sort, "
+                 "get_order, make_patch, order_config; vm_compute evaluation of P_C08 and of model/implementation "
+                 "agreement on real make_patch/order_config outputs",
+    "note": "Two open findings (order_config moves unmentioned negated rows first; tied commands follow the diff's "
+            "positional order). The theorems are about the model; "
+            "the tie to the code is differential testing bounded by the generator. Rules matched ambiguously are not "
+            "ranked by the reference. %multiline, comments and vendor %logic functions are not modelled.",
 }
 IMPORTS = P.PIPE_IMPORTS + "\nFrom Annet Require Import Spec.P_C03 Spec.P_C08."
+
+KNOWN_NEG = "C08/cfg_unmentioned/negated-row-no-rule-mentions"
+KNOWN_TIE = "C08/meta/tied-commands-follow-diff-position"
+KNOWN = (KNOWN_NEG, KNOWN_TIE)
+CL = ["sorted", "stable_sort_of", "multiset", "rank", "cfg_perm", "cfg_idem", "cfg_unmentioned",
+      "cfg_unmentioned_kind", "cfg_rank", "resort", "meta", "meta_weak"]
+CASE_KEYS = ("vendor", "rules", "orules", "patching", "ordering", "old", "new", "meta_pick", "order_cfg", "cfg_mode",
+             "diff_mode")
+
+
+def gen_order_cfg(rng, c) -> tuple[dict, str]:
+    """The tree handed to order_config.  'plain': the new config; 'neg': plus negations of existing rows
+    (mentioned through the reverse form iff the row is mentioned); 'mixed': plus negated rows no rule
+    mentions and the vendor's exit word, at any depth."""
+    mode = rng.choice(["plain", "plain", "neg", "neg", "mixed"])
+    if mode == "plain":
+        return c["new"], mode
+    rev, ex = P.VENDORS[c["vendor"]][0], P.VENDORS[c["vendor"]][1]
+
+    def crude(row: str, orules: list):
+        """first ordering rule whose literal words/holes fit the row (steers generation only)"""
+        ws = row.split()
+        for o in orules or []:
+            ps = [p for p in o["pat"].split() if p != "~"]
+            if ps and ps[0] == rev:
+                continue
+            if len(ws) >= len(ps) and all(p == w or p.startswith("*") for p, w in zip(ps, ws)):
+                return o
+        return None
+
+    def walk(t: dict, orules: list) -> dict:
+        items = []
+        extra = []
+        for k, v in t.items():
+            o = crude(k, orules)
+            items.append((k, walk(v, o["kids"] if o else [])))
+            # negation of a row: mentioned through the reverse form iff the row is mentioned
+            if rng.random() < (0.45 if o is not None else (0.1 if mode == "mixed" else 0.0)):
+                extra.append((f"{rev} {k}", {}))
+        if mode == "mixed":
+            if rng.random() < 0.25:
+                extra.append((f"{rev} unknown {rng.choice(P.VAL)}", {}))
+            if rng.random() < 0.3:
+                extra.append((f"unlisted {rng.choice(P.VAL)}", {}))
+            if ex and rng.random() < 0.3:
+                extra.append((ex, {}))
+        allrows = items + extra
+        if extra:
+            rng.shuffle(allrows)
+        out: dict = {}
+        for k, v in allrows:
+            out.setdefault(k, v)
+        return out
+
+    return walk(c["new"], c["orules"]), mode
 
 
 def tweak(rng, c, i):
     c = dict(c)
+    # ordering only shows on patches with several sibling commands: bias towards big diffs
+    x = rng.random()
+    if x < 0.35:
+        c["new"] = P.gen_config(rng, c["rules"], density=0.8)          # independent of old: many adds + removals
+        c["diff_mode"] = "independent"
+    elif x < 0.65:
+        c["new"] = P.mutate_config(rng, c["old"], c["rules"], rate=0.9)
+        c["diff_mode"] = "heavy"
+    else:
+        c["diff_mode"] = "light"
     c["meta_pick"] = rng.randrange(1000) if rng.random() < 0.7 else None
     if not c["orules"]:
         c["orules"] = P.gen_ordering(rng, c["rules"], P.VENDORS[c["vendor"]][0])
         c["ordering"] = P.ordering_text(c["orules"])
+    c["order_cfg"], c["cfg_mode"] = gen_order_cfg(rng, c)
     return c
+
+
+def payload(c) -> dict:
+    return P.impl_payload(c, c08=True, meta_pick=c["meta_pick"], order_cfg=c["order_cfg"])
 
 
 def coq_obs(c, o) -> str:
     s = None if o.get("err") else P.coq_ptree(o["patch"])
     u = None if o.get("patch_unsorted_err") or "patch_unsorted" not in o else P.coq_ptree(o["patch_unsorted"])
     meta = None if "meta_patch" not in o else P.coq_ptree(o["meta_patch"])
+    rs = None if "patch_resorted" not in o else P.coq_ptree(o["patch_resorted"])
     return ("(Obs08 " + " ".join([
-        P.coq_vendor(c["vendor"]), P.coq_ordering(c["orules"]), copt(s), copt(u), cforest(c["new"]),
-        cforest(o["order_new"]), cforest(o["order_twice"]), P.coq_paths(o.get("cmd_paths", [])), copt(meta)]) + ")")
+        P.coq_vendor(c["vendor"]), P.coq_ordering(c["orules"]), copt(s), copt(u), cforest(c["order_cfg"]),
+        cforest(o["order_new"]), cforest(o["order_twice"]), P.coq_paths(o.get("cmd_paths", [])), copt(meta), copt(rs)]) + ")")
+
+
+def evaluate(cases, outs, keep):
+    """Stage 1: one predicate per case, P_C08 && agree_all (diff and pre computed once).  Stage 2 (only
+    the cases where it is false): P_C08, the three agreements, every clause, and whether the input is in
+    the class of a listed finding.  Indices in the result refer to positions in `keep`."""
+    # parsing the case terms dominates the cost: leave out the observables C08 does not look at
+    def slim(o):
+        return dict(o, diff_full=[], diff=[], cmd_paths=[], patch_lines=[])
+    terms = [f"({P.coq_pcase(cases[i], slim(outs[i]))}, {coq_obs(cases[i], slim(outs[i]))})" for i in keep]
+    per = min(25, max(10, -(-len(terms) // core.NPROC)))      # ~10 KB of Coq term and ~10 MB of coqc memory per case
+    res1 = core.run_case_files(ID, "pcase * obs08", IMPORTS,
+                               {"ok": "fun x => P_C08 (snd x) && agree_all (fst x) (snd x)"}, terms, per_file=per)
+    bad = res1["ok"]
+    preds2 = {"holds": "fun x => P_C08 (snd x)",
+              "agree_patch": "fun x => agree_patch (fst x)",
+              "agree_unsorted": "fun x => agree_unsorted (fst x) (snd x)",
+              "agree_order_config": "fun x => agree_order_config (snd x)",
+              # indices where the input is in the class of the open finding
+              "neg_unmentioned": "fun x => negb (c8_neg_unmentioned (snd x))"}
+    preds2.update({f"cl_{k}": f"fun x => c8_{k} (snd x)" for k in CL})
+    res = {k: [] for k in preds2}
+    if bad:
+        per2 = min(25, max(5, -(-len(bad) // core.NPROC)))
+        res2 = core.run_case_files(ID, "pcase * obs08", IMPORTS, preds2, [terms[j] for j in bad], per_file=per2,
+                                   tag="clauses")
+        for k, v in res2.items():
+            res[k] = [bad[j] for j in v]
+    return res
+
+
+def classify(res, j) -> list[tuple[str, list[str]]]:
+    """-> [(signature, failed clauses)].  The two listed classes are recognised by Coq-evaluated predicates:
+    cfg_unmentioned false while cfg_unmentioned_kind holds and the tree has a negated unmentioned row;
+    meta false while meta_weak holds.  Anything else failing in the same case is reported separately."""
+    failed = [k for k in CL if j in res[f"cl_{k}"]]
+    out, rest = [], list(failed)
+    if "cfg_unmentioned" in rest and "cfg_unmentioned_kind" not in rest and j in res["neg_unmentioned"]:
+        out.append((KNOWN_NEG, ["cfg_unmentioned"]))
+        rest.remove("cfg_unmentioned")
+    if "meta" in rest and "meta_weak" not in rest:
+        out.append((KNOWN_TIE, ["meta"]))
+        rest.remove("meta")
+    if rest:
+        out.append(("C08/" + "+".join(rest), rest))
+    return out
+
+
+def tree_rows(t: dict) -> int:
+    return sum(1 + tree_rows(v) for v in t.values())
 
 
 def run(ctx):
     core.proof_stage(ctx, THEOREM_FILE)
     rng = ctx.rng("c08")
-    n = 8000 if ctx.thorough else 900
+    n = 4800 if ctx.thorough else 640
     cases = [tweak(rng, P.gen_case(rng), i) for i in range(n)]
-    outs = core.run_impl_sharded("pipeline_runner.py",
-                                 [P.impl_payload(c, c08=True, meta_pick=c["meta_pick"]) for c in cases])
+    outs = core.run_impl_sharded("pipeline_runner.py", [payload(c) for c in cases])
     keep = [i for i, o in enumerate(outs) if "fatal" not in o and "order_new" in o]
     if len(keep) < len(cases):
-        i = next(i for i in range(len(cases)) if i not in set(keep))
-        raise core.CheckFailure("pipeline runner failed: " + str(outs[i])[:800])
-    terms = [f"({P.coq_pcase(cases[i], outs[i])}, {coq_obs(cases[i], outs[i])})" for i in keep]
-    CL = ["sorted", "stable_sort_of", "multiset", "rank", "cfg_perm", "cfg_idem", "cfg_unmentioned", "meta"]
-    preds = {"holds": "fun x => P_C08 (snd x)",
-             "agree_patch": "fun x => agree_patch (fst x)",
-             "agree_order_config": "fun x => agree_order_config (snd x)"}
-    preds.update({f"cl_{k}": f"fun x => c8_{k} (snd x)" for k in CL})
-    res = core.run_case_files(ID, "pcase * obs08", IMPORTS, preds, terms, per_file=40)
+        bad = set(range(len(cases))) - set(keep)
+        i = min(bad)
+        ctx.add_violation(core.Violation(
+            signature="C08/implementation-raised",
+            what="the real make_patch / order_config raised an unexpected exception: " + str(outs[i])[:600],
+            replay={"case": {k: cases[i][k] for k in CASE_KEYS}, "impl": outs[i]}))
+    res = evaluate(cases, outs, keep)
 
     def rep(i):
-        return {"case": {k: cases[i][k] for k in ("vendor", "patching", "ordering", "old", "new", "meta_pick")}, "impl": outs[i]}
+        return {"case": {k: cases[i][k] for k in CASE_KEYS}, "impl": outs[i]}
 
-    for j in res["holds"][:3]:
-        failed = [k for k in CL if j in res[f"cl_{k}"]]
-        ctx.add_violation(core.Violation(
-            signature="C08/" + "+".join(failed),
-            what="the real patch / order_config output violates ordering clause(s) " + ", ".join(failed) + " of P_C08",
-            replay=dict(rep(keep[j]), clauses=failed)))
-    if not res["holds"]:
-        for lab in ("agree_patch", "agree_order_config"):
+    per_sig: dict[str, int] = {}
+    unknown = 0
+    for j in res["holds"]:
+        for sig, failed in classify(res, j):
+            per_sig[sig] = per_sig.get(sig, 0) + 1
+            if sig not in KNOWN:
+                unknown += 1
+            if per_sig[sig] > (1 if sig in KNOWN else 3):
+                continue
+            ctx.add_violation(core.Violation(
+                signature=sig,
+                what="the real patch / order_config output violates ordering clause(s) " + ", ".join(failed) + " of P_C08",
+                replay=dict(rep(keep[j]), clauses=failed)))
+    if not unknown:
+        for lab in ("agree_patch", "agree_unsorted", "agree_order_config"):
             for j in res[lab][:1]:
                 ctx.add_violation(core.Violation(
                     signature=f"C08/model-impl-disagree/{lab}",
-                    what=f"Coq model and implementation differ ({lab}); P_C08 holds on all outputs explored",
+                    what=f"Coq model and implementation differ ({lab}); P_C08 holds on all outputs explored "
+                         f"(apart from listed known findings)",
                     replay=dict(rep(keep[j]), correspondence=lab), no_input=True))
     seen, nt = set(), 0
+    modes: dict[str, int] = {}
+    dmodes: dict[str, int] = {}
+    vend: dict[str, int] = {}
+    n_items: dict[str, int] = {"0": 0, "1-2": 0, "3-5": 0, "6+": 0}
+    n_orules: dict[str, int] = {"0": 0, "1-2": 0, "3+": 0}
+    removal_items = neg_rows = exit_rows = 0
     for i in keep:
-        h = core.canon_hash([cases[i][k] for k in ("vendor", "patching", "ordering", "old", "new")])
+        c, o = cases[i], outs[i]
+        modes[c["cfg_mode"]] = modes.get(c["cfg_mode"], 0) + 1
+        dmodes[c["diff_mode"]] = dmodes.get(c["diff_mode"], 0) + 1
+        vend[c["vendor"]] = vend.get(c["vendor"], 0) + 1
+        k = len(o.get("patch") or [])
+        n_items["0" if k == 0 else "1-2" if k <= 2 else "3-5" if k <= 5 else "6+"] += 1
+        r = len(c["orules"])
+        n_orules["0" if r == 0 else "1-2" if r <= 2 else "3+"] += 1
+        removal_items += sum(1 for it in (o.get("patch") or []) if not it["sk"][2])
+        rev, ex = P.VENDORS[c["vendor"]][0], P.VENDORS[c["vendor"]][1]
+        neg_rows += sum(1 for row in c["order_cfg"] if row.startswith(rev + " "))
+        exit_rows += sum(1 for row in c["order_cfg"] if ex and row == ex)
+        h = core.canon_hash([c[k2] for k2 in ("vendor", "patching", "ordering", "old", "new", "order_cfg")])
         if h in seen:
             continue
         seen.add(h)
-        if len(outs[i].get("patch") or []) >= 3 and cases[i]["orules"]:
+        if k >= 3 and c["orules"]:
             nt += 1
     ctx.coverage.update({
         "evaluations": len(cases), "distinct_nontrivial": nt,
         "rule": "random patching + ordering rulebooks (depth<=3, %order_reverse, %global, %scope, reverse-form rules, '~'), "
-                "config pairs; distinct by inputs; non-trivial = ordering rulebook non-empty and >= 3 top-level patch items",
+                "config pairs, and a tree for order_config (plain / with negated rows / with unmentioned negated rows "
+                "and the exit word); distinct by inputs; non-trivial = ordering rulebook non-empty and >= 3 top-level "
+                "patch items",
         "samples": [rep(i) for i in keep[:2]],
         "traces_validated_against_impl": len(keep),
-        "disagreements_checked": len(res["agree_patch"]) + len(res["agree_order_config"]),
+        "disagreements_checked": len(res["agree_patch"]) + len(res["agree_unsorted"]) + len(res["agree_order_config"]),
         "metamorphic_runs": sum(1 for o in outs if "meta_patch" in o),
+        "order_cfg_mode_histogram": modes,
+        "diff_mode_histogram": dmodes,
+        "vendor_histogram": vend,
+        "top_level_patch_items_histogram": n_items,
+        "top_level_ordering_rules_histogram": n_orules,
+        "top_level_removal_items": removal_items,
+        "order_cfg_top_level_negated_rows": neg_rows,
+        "order_cfg_top_level_exit_rows": exit_rows,
+        "order_cfg_rows_total": sum(tree_rows(cases[i]["order_cfg"]) for i in keep),
+        "violations_by_signature": per_sig,
     })
-    ctx.assumptions += ["list.sort/sorted are stable sorts (CPython guarantee); the model uses stable insertion sort"]
+    ctx.assumptions += [
+        "list.sort/sorted are stable sorts (CPython guarantee); the model uses stable insertion sort, which "
+        "C08_stable_sort_unique shows is the only sorted stable permutation",
+        "rule patterns restricted to the plain rule language of Model/Pattern.v (C07); theorems hold for any matcher",
+        "not modelled: %multiline, %comment/add_comments, vendor %logic functions, do_commit=False",
+    ]
 
 
 def replay(ctx, doc):
-    print(doc["replay"]["case"])
-    return 1
+    """Re-run the real implementation on the stored case and let Coq re-evaluate P_C08 and the agreements."""
+    c = doc["replay"]["case"]
+    if "rules" not in c:
+        print(c)
+        return 1
+    outs = core.run_impl_sharded("pipeline_runner.py", [payload(c)])
+    o = outs[0]
+    if "fatal" in o or "order_new" not in o:
+        print("implementation raised:", str(o)[:800])
+        return 1
+    res = evaluate([c], outs, [0])
+    failed = {k: v for k, v in res.items() if v and k != "neg_unmentioned"}
+    print("case:", {k: c[k] for k in ("vendor", "patching", "ordering", "old", "new", "order_cfg")})
+    print("order_config ->", o["order_new"])
+    print("false predicates:", sorted(failed) or "none")
+    if res["holds"]:
+        print("signatures:", [sg for sg, _ in classify(res, 0)])
+    return 1 if failed else 0
